@@ -482,7 +482,7 @@ class C04Bounded(Bounded):
                     if len(samples) < 5 and ln == 2:
                         samples.append({"chain": chain, "source": src, "values": [M.native_text(x.s) for x in got]})
         # value lists: every value of a list is encoded by itself - the result is the concatenation of the single-value results
-        singles = ["ab", "cd", "a", "Zä", "x y"]
+        singles = ["ab", "cd", "a", "Zä", "x y", "AB", "zÄ", "A"]       # incl. payloads that differ from another one only in case: they are different byte strings
         for chain in (["base64"], ["base64offset"], ["wide", "base64"], ["wide", "base64offset"], ["utf16le", "base64"], ["utf16be", "base64offset"], ["utf16", "base64"]):
             key = "f|" + "|".join(chain)
             one = {}
@@ -503,6 +503,24 @@ class C04Bounded(Bounded):
                     continue
                 if got2 != one[a_] + one[b_]:
                     failures.append({"text": f"{chain} on the list {[a_, b_]!r}: values {got2} are not the values of {a_!r} followed by the values of {b_!r} ({one[a_] + one[b_]})", "input": [chain, [a_, b_]]})
+        # history: the value an encoding modifier produces for a literal does not depend on what the same literal text was used for before
+        # (placeholder expansion un-escapes \% in ITS string object; equal literals must not share that object)
+        for lit_src in ("echo \\%PATH", "100\\% sure", "\\%a\\% and \\%b"):
+            for chain in (["base64"], ["wide", "base64"], ["base64offset"]):
+                n += 1
+                nontriv += 1
+                key = "f|" + "|".join(chain)
+                try:
+                    before = [M.native_text(x.s) for x in vals(SigmaDetectionItem.from_mapping(key, lit_src))]
+                    SigmaDetectionItem.from_mapping("g|expand", lit_src)
+                    SigmaDetectionItem.from_mapping("g|expand|contains", [lit_src, "x"])
+                    after = [M.native_text(x.s) for x in vals(SigmaDetectionItem.from_mapping(key, lit_src))]
+                except Exception as e:
+                    failures.append({"text": f"{chain} on {lit_src!r} around an expand of the same literal: {type(e).__name__}: {e}", "input": [chain, lit_src]})
+                    continue
+                want_h = b64encode(lit_src.encode("utf-16le" if chain[0] == "wide" else "utf-8")).decode() if chain[-1] == "base64" else None
+                if before != after or (want_h is not None and before != [want_h]):
+                    failures.append({"text": f"{chain} on {lit_src!r}: {before} before and {after} after the same literal was used with expand" + (f" (the payload's encoding is {want_h!r})" if want_h else ""), "input": [chain, lit_src, "history"]})
         return {"evaluations": n, "distinct_nontrivial": nontriv, "failures": sorted(failures, key=lambda f: f["text"].startswith("KNOWN"))[:40],       # failures that are not on the recorded list come first: they must not be cut off
                  "failure_counts": {str(k): v for k, v in _F.seen.items()}, "bound": f"payloads of <= {maxlen} symbols over {alphabet!r}, 10 modifier chains, prefixes 0..5 x suffixes (0,1,2,5) of random bytes; 7 chains x 20 two-value lists",
                 "rule": "every (payload, chain) pair is distinct; non-trivial = not rejected by the library", "samples": samples, "exhaustive": True}
